@@ -58,3 +58,91 @@ Proof.
   destruct (H ainit ainv_init Hr) as (_ & _ & I3). exact I3.
 Qed.
 End A.
+
+(* ---- the cache key: function objects are never confused -------------------- *)
+Lemma fold_pfunc_fn : forall h c f,
+  forallb (fun p => match p with PFunc => true | _ => false end) c = true ->
+  fold_left (kstep h) c (KFn f) = KFn f.
+Proof.
+  intros h c f. induction c as [|p t IH]; simpl; intros H; auto.
+  apply andb_true_iff in H as [Hp Ht]. destruct p; try discriminate. simpl. auto.
+Qed.
+
+Lemma chain_ok_key : forall c, chain_ok c = true -> forall h f b, entity_key c h f b = KFn f.
+Proof.
+  intros c Hc h f b. unfold chain_ok in Hc. destruct c as [|p t]; [discriminate|].
+  pose proof Hc as Hc'. simpl in Hc'. apply andb_true_iff in Hc' as [Hp Ht]. destruct p; try discriminate.
+  unfold entity_key. destruct b; simpl; apply fold_pfunc_fn; auto.
+Qed.
+
+Theorem chain_ok_injective : forall c, chain_ok c = true ->
+  forall h f1 b1 f2 b2, entity_key c h f1 b1 = entity_key c h f2 b2 <-> f1 = f2.
+Proof.
+  intros c Hc h f1 b1 f2 b2. rewrite !(chain_ok_key c Hc). split; [intros H; inversion H; auto|intros; subst; auto].
+Qed.
+
+Section E.
+Variable chain : akey_chain.
+Variable h : fheap.
+Variable static : akey -> bool.
+Variable x : exits.
+Hypothesis Hx : exits_ok x = true.
+Hypothesis Hc : chain_ok chain = true.
+
+Definition kstatic (k : ekey) : Prop := exists f, fst k = KFn f /\ static (f, snd k) = true.
+
+Definition EInv (s : estate) : Prop :=
+  (forall k, eal s k = true -> kstatic k) /\
+  (forall tid k, epending s tid = Some k -> kstatic k) /\
+  (forall r c, In (r, c) (elog s) -> e_disabled r = false -> static (e_fn r, e_opt r) = false -> c = true).
+
+Lemma einv_init : EInv einit.
+Proof. repeat split; simpl; intros; try discriminate; contradiction. Qed.
+
+Lemma kobj_eqb_eq : forall a b, kobj_eqb a b = true -> a = b.
+Proof. intros [a|a|a] [b|b|b] H; simpl in H; try discriminate; apply Nat.eqb_eq in H; subst; auto. Qed.
+
+Lemma einv_step : forall s l s', EInv s -> estep chain h static x s l = Some s' -> EInv s'.
+Proof.
+  intros s l s' (I1 & I2 & I3) Hs.
+  assert (Hw : ctx_exit_writes x = false).
+  { unfold exits_ok in Hx. destruct (ctx_exit_writes x); simpl in Hx; auto; discriminate. }
+  destruct l as [tid r|tid]; simpl in Hs.
+  - destruct (epending s tid) eqn:Hp; [discriminate|].
+    rewrite (chain_ok_key chain Hc) in Hs.
+    destruct (eal s (KFn (e_fn r), e_opt r)) eqn:Ha.
+    + inversion Hs; subst s'; simpl. repeat split; auto; simpl.
+      intros r0 c [H|H] Hd Hst; [|eauto]. inversion H; subst.
+      destruct (I1 _ Ha) as (f & Hf & Hs0). simpl in Hf, Hs0. inversion Hf; subst. congruence.
+    + destruct (e_disabled r) eqn:Hd.
+      * inversion Hs; subst s'; simpl. rewrite Hw; simpl. repeat split; auto; simpl.
+        -- intros j k. destruct (Nat.eqb j tid); [intros Hq; discriminate Hq|apply I2].
+        -- intros r0 c [H|H] Hd0 Hst; [inversion H; subst; congruence|eauto].
+      * destruct (static (e_fn r, e_opt r)) eqn:Hst.
+        -- inversion Hs; subst s'; simpl. repeat split; auto; simpl.
+           ++ intros j k. destruct (Nat.eqb j tid); [|apply I2].
+              destruct (static_exit_writes x); [|intros Hq; discriminate Hq]. intros H; inversion H; subst.
+              exists (e_fn r). simpl. auto.
+           ++ intros r0 c [H|H] Hd0 Hst0; [inversion H; subst; congruence|eauto].
+        -- inversion Hs; subst s'; simpl. repeat split; auto; simpl.
+           intros r0 c [H|H] Hd0 Hst0; [inversion H; subst; auto|eauto].
+  - destruct (epending s tid) as [k|] eqn:Hp; [|discriminate].
+    inversion Hs; subst s'; simpl. repeat split; auto; simpl.
+    + intros j. destruct (ekey_eqb j k) eqn:E; auto. intros _.
+      unfold ekey_eqb in E. apply andb_true_iff in E as [E1 E2]. apply kobj_eqb_eq in E1. apply Nat.eqb_eq in E2.
+      destruct j, k; simpl in *; subst. eapply I2; eauto.
+    + intros j k0. destruct (Nat.eqb j tid); [intros Hq; discriminate Hq|apply I2].
+Qed.
+
+Theorem enabled_entity_requests_converted : forall ls s,
+  erun chain h static x einit ls = Some s ->
+  forall r c, In (r, c) (elog s) -> e_disabled r = false -> static (e_fn r, e_opt r) = false -> c = true.
+Proof.
+  intros ls s Hr.
+  assert (H : forall s0, EInv s0 -> erun chain h static x s0 ls = Some s -> EInv s).
+  { clear Hr. induction ls as [|l t IH]; intros s0 HI Hrun; simpl in Hrun.
+    - inversion Hrun; subst; auto.
+    - destruct (estep chain h static x s0 l) as [s1|] eqn:E; [|discriminate]. apply (IH s1); auto. eapply einv_step; eauto. }
+  destruct (H einit einv_init Hr) as (_ & _ & I3). exact I3.
+Qed.
+End E.
